@@ -1080,7 +1080,9 @@ func (g *sancGen) history(k int, steps int) {
 			}
 			bal := g.e.a.BankKeeper.GetBalance(g.e.ctx, sancAddrs[from], sancBond).Amount
 			amt := int64(1 + r.Intn(50))
-			if bal.IsInt64() && r.Chance(15) {
+			// (never V's whole balance: the model's tally assumes V keeps (almost) all bonded stake,
+			// so what users can delegate must stay far below V's 1,000,000 bonded)
+			if bal.IsInt64() && r.Chance(15) && from != "V" {
 				amt = bal.Int64() + int64(r.Intn(2))
 			}
 			if amt <= 0 {
